@@ -13,7 +13,7 @@ EXPLANATION = (
     "and of the verifier (verify_proof) are equal as lists of (label, role) and equal to the pinned list - protocol label, dst salt, "
     "base point, pk, generator, c1, c2, r1, r2, 64-byte challenge reduced by scalar_from_bytes_wide - so a side that stops binding c2 "
     "or pk differs from the other, and a symmetric removal differs from the pin; the verifier recomputes r1 from {c1, challenge, "
-    "blinder_proof} and r2 from {c2, challenge, message_proof, blinder_proof, pk, generator}; accept iff challenge == recomputed with "
+    "blinder_proof} and r2 from {c2, challenge, message_proof, blinder_proof, pk, generator}, and as polynomials over those inputs r1 = G*blinder_proof - c1*c, r2 = H*message_proof + pk*blinder_proof - c2*c while the prover answers b + c*m and r + c*b (normal form insensitive to association, operand order and where a negation sits); accept iff challenge == recomputed with "
     "identity/zero guards on every input; verify_and_decrypt derives pk = G*sk, propagates the proof error and only then decrypts; "
     "all four Add and both AddAssign impls are field-wise (c1 from the c1s only, c2 from the c2s only); seal_scalar builds c1 = G*b and "
     "c2 = pk*b + H*m; decrypt = c2 - c1*sk; the message generator hashes to_bytes(G) under ENC_DST with the key-group hasher. "
@@ -121,6 +121,7 @@ def run(ctx):
         ctx.ob("E4.accept", vf.key, good, "Ok(()) only when challenge == scalar_from_bytes_wide(transcript challenge)", where=where(vf))
         for kind, subj in (("is_identity", ("param", "pk")), ("is_identity", ("opt-param", "generator")), ("is_identity", ("param", "c1")), ("is_identity", ("param", "c2")), ("is_zero", ("param", "message_proof")), ("is_zero", ("param", "blinder_proof")), ("is_zero", ("param", "challenge"))):
             R.check_result_guard(ctx, "E4.result", P, vf.key, kind, subj)
+    _check_responses(ctx, P, pr, vf)
     # verify_and_decrypt
     vd = ctx.need_fn("E4.vad", "BlsElGamal::verify_and_decrypt")
     if vd is not None:
@@ -249,6 +250,91 @@ def run(ctx):
         ok = kind.get(cur) == "field-wise" and not cyc
         ctx.ob("E6.homomorphic", f.key, ok, "%s: %s%s" % (f.key, " -> ".join(k_.split(" as ")[-1] if k_ != f.key else "self" for k_ in chain), " -> ... (cycle: endless recursion)" if cyc else " [" + str(kind.get(cur)) + "]"), where=where(f))
     ctx.assume("merlin transcript and scalar_from_bytes_wide are deterministic; soundness rests on discrete log")
+
+
+def _check_responses(ctx, P, pr, vf):
+    """The proof equations themselves, as polynomial normal forms (core/poly.py): the prover answers
+    message_proof = b + c*m and blinder_proof = r + c*b (b: blinder of the ciphertext and message of the commitment pair,
+    r: blinder of the commitment pair, c: the reduced transcript challenge), and the verifier recomputes
+    r1 = G*blinder_proof - c1*c and r2 = H*message_proof + pk*blinder_proof - c2*c.  A proof produced under another sign
+    or pairing convention is internally consistent but is not the documented construction (and does not interoperate)."""
+    from ..core import poly as PL
+
+    if pr is not None:
+        ev = evaluate(pr)
+        tups = []
+        for b in R.ok_blocks(pr):
+            v = R.ok_value(ev.fn, ev, b)
+            v = B.peel(v) if v is not None else None
+            if v is not None and v.op == "agg" and v.a[0][0] == "adt" and len(v.a[1]) == 1:
+                v = B.peel(v.a[1][0])
+            if v is not None and v.op == "agg" and v.a[0][0] == "tuple" and len(v.a[1]) == 5:
+                tups.append(v)
+        ctx.ob("E5.response.anchor", pr.key, bool(tups), "Ok((c1, c2, message_proof, blinder_proof, challenge)) tuple(s) of the prover found: %d" % len(tups), where=where(pr))
+        seals = [s_ for _, s_ in sorted(ev.sites.items()) if s_.callee[0] == "BlsElGamal::seal_scalar"]
+
+        def some_payload(t):
+            t = B.peel(t)
+            if t.op == "agg" and t.a[0][0] == "adt" and t.a[0][1] == "Option" and len(t.a[1]) == 1:
+                return B.peel(t.a[1][0])
+            return None
+
+        bterm = rterm = None
+        for s_ in seals:
+            m = B.peel(s_.args[1])
+            if m.op == "param" and m.a[1] == "message":
+                bterm = some_payload(s_.args[3])
+        for s_ in seals:
+            m = B.peel(s_.args[1])
+            if bterm is not None and (m is bterm or strip_sites(m) == strip_sites(bterm)):
+                rterm = some_payload(s_.args[3])
+        ctx.ob("E5.response.anchor", pr.key + "/blinders", bterm is not None and rterm is not None and rterm is not bterm, "ciphertext = seal_scalar(pk, message, H, Some(b)), commitments = seal_scalar(pk, b, H, Some(r)) with b = %s, r = %s" % (show(strip_sites(bterm), 3) if bterm is not None else None, show(strip_sites(rterm), 3) if rterm is not None else None), where=where(pr))
+
+        def atom(t):
+            if t.op == "call" and B.cname(t) == "BlsElGamal::scalar_from_bytes_wide":
+                return "c"
+            if t.op == "param" and t.a[1] == "message":
+                return "m"
+            if bterm is not None and (t is bterm or strip_sites(t) == strip_sites(bterm)):
+                return "b"
+            if rterm is not None and t is rterm:
+                return "r"
+            return None
+
+        for v in tups:
+            mp = PL.named(PL.poly(v.a[1][2], atom))
+            bp = PL.named(PL.poly(v.a[1][3], atom))
+            ch = PL.named(PL.poly(v.a[1][4], atom))
+            ctx.ob("E5.response", pr.key + "/message_proof", mp == {("b",): 1, ("c", "m"): 1}, "message_proof = %s (documented: b + c*m)" % PL.show_poly(PL.poly(v.a[1][2], atom), lambda t, d: show(strip_sites(t), d)), where=where(pr))
+            ctx.ob("E5.response", pr.key + "/blinder_proof", bp == {("r",): 1, ("b", "c"): 1}, "blinder_proof = %s (documented: r + c*b)" % PL.show_poly(PL.poly(v.a[1][3], atom), lambda t, d: show(strip_sites(t), d)), where=where(pr))
+            ctx.ob("E5.response", pr.key + "/challenge", ch == {("c",): 1}, "returned challenge = %s (the reduced transcript challenge itself)" % PL.show_poly(PL.poly(v.a[1][4], atom), lambda t, d: show(strip_sites(t), d)), where=where(pr))
+    if vf is not None:
+        evts = PR.transcript_events_in(P, vf)[0] or []
+        byl = {l: p for k, l, p in evts if k == "msg"}
+
+        def vatom(t):
+            if t.op == "param":
+                return t.a[1]
+            if t.op == "call" and B.cname(t) == "Group::generator":
+                return "G"
+            if R.subject_matches(t, ("opt-param", "generator")):
+                return "generator"
+            return None
+
+        want = {
+            "r1": {("G", "blinder_proof"): 1, ("c1", "challenge"): -1},
+            "r2": {("generator", "message_proof"): 1, ("blinder_proof", "pk"): 1, ("c2", "challenge"): -1},
+        }
+        for label in ("r1", "r2"):
+            ats = B.seg_atoms(byl.get(label) or [])
+            x = None
+            if len(ats) == 1 and ats[0].op == "call" and B.cname(ats[0]) == "GroupEncoding::to_bytes":
+                x = B.peel(ats[0].a[1][0])
+            if x is None:
+                ctx.ob("E5.response.anchor", vf.key + "/" + label, False, "payload of the `%s` transcript message is not to_bytes(<point>)" % label, where=where(vf))
+                continue
+            got = PL.named(PL.poly(strip_sites(x), vatom))
+            ctx.ob("E5.response", vf.key + "/" + label, got == want[label], "verifier's %s = %s (documented: %s)" % (label, PL.show_poly(PL.poly(strip_sites(x), vatom), show), PL.show_poly(want[label])), where=where(vf))
 
 
 def _field_of(t):
